@@ -4,6 +4,7 @@ use crate::cal::bitmap;
 use crate::util::*;
 use chrono::{Datelike, NaiveDateTime};
 use rateslib::calendars::{get_calendar_by_name, ndt, Cal, CalType, DateRoll, NamedCal, UnionCal};
+use rateslib::verif::calendar_py as cpy;
 use serde_json::{json, Value};
 
 pub const DOC_NAMES: [&str; 14] =
@@ -126,9 +127,15 @@ pub fn grammar(cases: &str, seed: u64, out: &str) {
         let k = (i % 3) as usize;
         let (lo, hi) = WINDOWS[k];
         let via_type = i % 2 == 1;
-        let ev = match guard(|| NamedCal::try_new(&s)) {
+        // every third triple of cases goes through the Python-facing class: its constructor, then its own predicates
+        let via_py = (i / 3) % 3 == 2;
+        let ev = match guard(|| if via_py { cpy::named_new(&s).map_err(|_| ()) } else { NamedCal::try_new(&s).map_err(|_| ()) }) {
             Outcome::Ok(Ok(nc)) => {
-                if via_type {
+                if via_py {
+                    json!({"op":"name","key":format!("name/{}", s.to_lowercase()),"toks":toks,"str":s,"o":"ok","win":k+1,"via":"PyNamedCal",
+                           "bus":bitmap(lo, hi, |d| cpy::named_pred(&nc, "is_bus_day", *d).unwrap_or(false)),
+                           "stl":bitmap(lo, hi, |d| cpy::named_pred(&nc, "is_settlement", *d).unwrap_or(false))})
+                } else if via_type {
                     let t = CalType::NamedCal(nc);
                     json!({"op":"name","key":format!("name/{}", s.to_lowercase()),"toks":toks,"str":s,"o":"ok","win":k+1,"via":"CalType",
                            "bus":bitmap(lo, hi, |d| t.is_bus_day(d)),"stl":bitmap(lo, hi, |d| t.is_settlement(d))})
@@ -176,7 +183,10 @@ pub fn unions(seed: u64, n: usize, out: &str) {
         let sb: Vec<Value> = settle.as_ref().map(|v| v.iter().map(|c| bitmap(lo, hi, |d| c.is_bus_day(d))).collect()).unwrap_or_default();
         let has_settle = settle.is_some();
         let u = UnionCal::new(members, settle);
-        let (bus, stl) = if i % 2 == 0 {
+        let (bus, stl) = if i % 3 == 2 {
+            // the Python-facing class's own predicates
+            (bitmap(lo, hi, |d| cpy::union_pred(&u, "is_bus_day", *d).unwrap_or(false)), bitmap(lo, hi, |d| cpy::union_pred(&u, "is_settlement", *d).unwrap_or(false)))
+        } else if i % 2 == 0 {
             (bitmap(lo, hi, |d| u.is_bus_day(d)), bitmap(lo, hi, |d| u.is_settlement(d)))
         } else {
             let t = CalType::UnionCal(u);
